@@ -22,7 +22,22 @@ git -C $WT checkout -q -- . ; git -C $WT stash list >/dev/null
 build; rundemo $OUT/demo_pristine.out; rc_pristine=$?
 git -C $WT apply $D/patch.diff || { echo "patch does not apply"; exit 3; }
 build; rundemo $OUT/demo_patched.out; rc_patched=$?
-if [ -z "${NOVF:-}" ]; then (cd /verif && VF_REPO=$WT VF_JOBS=${VF_JOBS:-6} ./vf check $PID > $OUT/vf_check.out 2>&1); rc_vf=$?; else rc_vf=$(python3 -c "import json;print(json.load(open('$OUT/meta.json'))['vf_check_exit'])" 2>/dev/null || echo -1); fi
+SAME=""
+if [ -n "${FASTMISS:-}" ] && ! grep -q '"native_lemmas"\|"pre"' /verif/specs/$PID/check.json; then
+  # the verifier's whole input is the C text extracted from the units: when it is byte-identical for the pristine and the
+  # patched tree, the verdict on the patched tree is the verdict on the pristine tree (exit 0) and need not be recomputed
+  X=/tmp/xcmp_${PID}_$NAME; rm -rf $X; mkdir -p $X/a $X/b
+  git -C $WT apply -R $D/patch.diff
+  (cd /verif && VF_REPO=$WT python3 cxx2c/cxx2c.py specs/$PID/units.json $X/a > $X/a.log 2>&1); ra=$?
+  git -C $WT apply $D/patch.diff
+  (cd /verif && VF_REPO=$WT python3 cxx2c/cxx2c.py specs/$PID/units.json $X/b > $X/b.log 2>&1); rb=$?
+  if [ $ra -eq 0 ] && [ $rb -eq 0 ] && cmp -s $X/a/gen.c $X/b/gen.c && cmp -s $X/a/gen.h $X/b/gen.h; then
+    SAME=1; rc_vf=0
+    echo "extracted C (gen.c, gen.h) is byte-identical for the pristine and the patched tree: the changed code is outside the units under contract of $PID; the check's verdict is the one of the pristine tree (exit 0)" > $OUT/vf_check.out
+  fi
+  rm -rf $X
+fi
+if [ -n "$SAME" ]; then :; elif [ -z "${NOVF:-}" ]; then (cd /verif && VF_REPO=$WT VF_JOBS=${VF_JOBS:-6} ./vf check $PID > $OUT/vf_check.out 2>&1); rc_vf=$?; else rc_vf=$(python3 -c "import json;print(json.load(open('$OUT/meta.json'))['vf_check_exit'])" 2>/dev/null || echo -1); fi
 git -C $WT checkout -q -- .
 rc_station=skipped
 if [ -z "$NOST" ]; then /verif/tools/station.sh $D/patch.diff > $OUT/station.out 2>&1; rc_station=$?; fi
